@@ -31,6 +31,7 @@ func init() {
 			{ID: "C14-R6", Title: "every module has a code object of its own", Floor: 2, Run: importerCodePerName},
 			{ID: "C14-R7", Title: "reload re-points only the functions of the reloaded main code (shared with C18-R3)", Floor: 2, Run: c18r3},
 			{ID: "C14-R8", Title: "the validated import path is the path the node keeps", Floor: 2, Run: validatedPathIsStoredPath},
+			{ID: "C14-R9", Title: "a failed import is not remembered", Floor: 1, Run: errorsAreNotCached},
 		},
 	})
 }
